@@ -13,7 +13,7 @@ import (
 )
 
 func TestDemoUDPDeadline(t *testing.T) {
-	pc := &packetConn{readCh: make(chan *packet, 1), closeCh: make(chan string, 1)}
+	pc := &packetConn{readCh: make(chan *packet, 1), closeCh: make(chan *packetConn, 1)}
 	// the outcome depended on the wall-clock phase: start in the first half of a second
 	for time.Now().Nanosecond() > 500_000_000 {
 		time.Sleep(10 * time.Millisecond)
